@@ -3,13 +3,20 @@
    complete behaviours (from Init to a closed, quiescent state) as forced schedules for replay
    on the real engine. *)
 EXTENDS Writer, Json
-VARIABLE h
+VARIABLES h,     \* history of action labels (not part of the state identity)
+          cov    \* coverage tags: situations a corpus behaviour went through (part of the state identity, so that
+                 \* BFS keeps one first-found history per (state, situations) pair)
 c_Clients2 == {"c1", "c2"}
 c_Clients1 == {"c1"}
 
-L(a, name, c) == a /\ h' = Append(h, [a |-> name, c |-> c])
+Tags(name) ==
+  IF name = "A_Fail" /\ (shadow # <<>> \/ q # <<>>) THEN {"fail_with_diverted_writes"}
+  ELSE IF name = "A_End" /\ (shadow # <<>> \/ q # <<>>) THEN {"end_with_diverted_writes"}
+  ELSE IF name = "W_Close" /\ mode THEN {"close_in_snapshot_mode"}
+  ELSE {}
+L(a, name, c) == a /\ h' = Append(h, [a |-> name, c |-> c]) /\ cov' = cov \cup Tags(name)
 
-InitH == Init /\ h = <<>>
+InitH == Init /\ h = <<>> /\ cov = {}
 NextH ==
   \/ \E c \in Clients : L(C_Start(c), "C_Start", c) \/ L(C_Enqueue(c), "C_Enqueue", c) \/ L(C_Apply(c), "C_Apply", c)
   \/ L(W_Recv, "W_Recv", "") \/ L(W_Tick, "W_Tick", "") \/ L(W_Flush, "W_Flush", "") \/ L(W_Close, "W_Close", "") \/ L(W_Dead, "W_Dead", "")
@@ -18,12 +25,12 @@ NextH ==
   \/ L(S_Truncate, "S_Truncate", "snap") \/ L(A_End("snap"), "A_End", "snap") \/ L(A_Reappend("snap"), "A_Reappend", "snap")
   \/ L(A_Begin("rw"), "A_Begin", "rw") \/ L(A_Capture("rw"), "A_Capture", "rw") \/ L(R_Replace, "R_Replace", "rw")
   \/ L(A_End("rw"), "A_End", "rw") \/ L(A_Reappend("rw"), "A_Reappend", "rw")
-SpecH == InitH /\ [][NextH]_<<vars, h>>
+SpecH == InitH /\ [][NextH]_<<vars, h, cov>>
 
-ViewH == vars
+ViewH == <<vars, cov>>
 \* corpus: complete behaviours only; the expectation is what a restart must read
-EmitDone == Done => PrintT(<<"CORPUS", ToJson([ops |-> h, acked |-> ackpre, dev |-> dev,
+EmitDone == Done => PrintT(<<"CORPUS", ToJson([ops |-> h, acked |-> ackpre, dev |-> dev, cov |-> cov,
                                                   recovered |-> Recover(snap, file)])>>)
 NextCorpus == EmitDone /\ NextH
-SpecCorpus == InitH /\ [][NextCorpus]_<<vars, h>>
+SpecCorpus == InitH /\ [][NextCorpus]_<<vars, h, cov>>
 =============================================================================
